@@ -357,13 +357,14 @@ func StatusCells() []Cell {
 // ---- security kinds --------------------------------------------------------------------------------
 
 var SchemeKinds = map[string]spec.SecScheme{
-	"bearer":        {Type: "http", Scheme: "bearer"},
-	"basic":         {Type: "http", Scheme: "basic"},
-	"apikey-hdr":    {Type: "apiKey", In: "header", Name: "X-Key"},
-	"apikey-query":  {Type: "apiKey", In: "query", Name: "key"},
-	"apikey-cookie": {Type: "apiKey", In: "cookie", Name: "sid"},
-	"oauth2":        {Type: "oauth2"},
-	"oidc":          {Type: "openIdConnect"},
+	"bearer":          {Type: "http", Scheme: "bearer"},
+	"basic":           {Type: "http", Scheme: "basic"},
+	"apikey-hdr":      {Type: "apiKey", In: "header", Name: "X-Key"},
+	"apikey-hdr-auth": {Type: "apiKey", In: "header", Name: "Authorization"},
+	"apikey-query":    {Type: "apiKey", In: "query", Name: "key"},
+	"apikey-cookie":   {Type: "apiKey", In: "cookie", Name: "sid"},
+	"oauth2":          {Type: "oauth2"},
+	"oidc":            {Type: "openIdConnect"},
 }
 
 func SecurityCells() []Cell {
@@ -435,6 +436,7 @@ var BaseForms = []BaseForm{
 	{Name: "flag-over-servers", Servers: []spec.Server{{URL: "/v9"}}, Flag: "/v1", Want: "/v1"},
 	{Name: "flag-root-over-servers", Servers: []spec.Server{{URL: "https://example.com/v9/"}}, Flag: "/", Want: ""},
 	{Name: "two-servers", Servers: []spec.Server{{URL: "/v1"}, {URL: "/v2"}}, Want: "/v1"},
+	{Name: "nopath-then-path", Servers: []spec.Server{{URL: "https://example.com"}, {URL: "http://localhost:8080/v1"}}, Want: ""},
 }
 
 func BaseFormByName(n string) BaseForm {
